@@ -221,8 +221,8 @@ impl Prop for Fcb {
     }
     fn cases(tier: Tier) -> u32 {
         match tier {
-            Tier::Quick => 20_000,
-            Tier::Thorough => 2_000_000,
+            Tier::Quick => 100_000,
+            Tier::Thorough => 4_000_000,
         }
     }
     fn strategy(_tier: Tier) -> BoxedStrategy<FcbCase> {
@@ -321,8 +321,8 @@ impl Prop for Sess {
     }
     fn cases(tier: Tier) -> u32 {
         match tier {
-            Tier::Quick => 12_000,
-            Tier::Thorough => 600_000,
+            Tier::Quick => 60_000,
+            Tier::Thorough => 2_400_000,
         }
     }
     fn strategy(_tier: Tier) -> BoxedStrategy<SessCase> {
